@@ -5,6 +5,7 @@ package PKGNAME
 // codec is a bijection on part ids.
 
 import (
+	"errors"
 	"bytes"
 	dbsql "database/sql"
 	"io"
@@ -52,11 +53,19 @@ func VerifC15FSRoundTrip() {
 		} else {
 			verifMust(s.PutPart(verifBg, tx, id, bytes.NewReader(newBody)))
 		}
-		if verifBool("commit") {
+		switch verifPick("end", 0, 2) {
+		case 1:
 			verifMust(tx.Commit(verifBg))
 			present, body = !del, newBody
-		} else {
+		case 0:
 			verifMust(tx.Rollback(verifBg))
+		case 2:
+			// another participant's pre-commit hook fails after this store's hooks
+			// ran (the part is already published / moved away): the commit fails and
+			// the rollback has to undo that too
+			tx.OnPreCommit(func(contextT) error { return errors.New("verif: late pre-commit failure") })
+			verifAssert(tx.Commit(verifBg) != nil, "Commit succeeded although a pre-commit hook failed") // Commit rolls back itself
+			verifCover("late-failure")
 		}
 	} else {
 		if del {
